@@ -1,14 +1,50 @@
 """Which component spec / harness adapter / enforcement profile decides which property."""
 
 
-def _flip_poll(ev):
-    # flip an observation: a pending poll that started the inner call loses the start
-    if ev.get('e') == 'poll' and ev.get('ns') == 1:
-        ev = dict(ev)
-        ev['ns'] = 0
-        ev['starts'] = []
-        ev['si'] = 0
-        return ev
+def _bulkhead_corrupt(evs, profile):
+    out = [dict(e) for e in evs]
+    if profile == 'ProfC07':
+        # a caller that was admitted at its first poll is shown as queued instead
+        for e in out:
+            if e.get('e') == 'poll' and e.get('ns') == 1:
+                e.update({'ns': 0, 'starts': [], 'si': 0, 'sc': 0})
+                return out
+        return None
+    # C01: one more inner call in flight than was observed: an inner completion is hidden
+    seen = 0
+    for e in out:
+        if e.get('e') == 'poll' and e.get('nd') == 1:
+            e.update({'nd': 0, 'dones': []})
+            seen = 1
+            break
+    if not seen:
+        return None
+    # ... and the run goes on to fill the bulkhead: only convincing if later admissions exist
+    later = [e for e in out if e.get('e') == 'poll' and e.get('ns') == 1]
+    return out if len(later) > out[0]['cfg']['max'] + 1 else None
+
+
+def _rl_corrupt(evs, profile):
+    out = [dict(e) for e in evs]
+    cfg = out[0]['cfg']
+    if profile == 'ProfC02':
+        # L+1 phantom admissions at the instant of a real one
+        for i, e in enumerate(out):
+            if e.get('e') == 'poll' and e.get('ns') == 1:
+                extra = []
+                for k in range(cfg['L'] + 1):
+                    c = 24 - k
+                    if any(x.get('c') == c for x in out):
+                        return None
+                    extra.append({'e': 'create', 'c': c, 't': e['t'], 'res': 'created', 'ns': 0})
+                    extra.append(dict(e, c=c, rq=c))
+                return out[:i + 1] + extra + out[i + 1:]
+        return None
+    # C15: a rejected call is shown as having reached the inner service
+    for e in out:
+        if e.get('e') == 'poll' and e.get('res') == 'err':
+            e['ns'] = 1
+            return out
     return None
 
 
@@ -21,11 +57,23 @@ COMPONENTS = {
         'trace_module': 'Trace_Bulkhead', 'trace_cfg_tmpl': 'Trace_Bulkhead.cfg.tmpl',
         'harness': 'bulkhead',
         'random': {'quick': [{'runs': 1500}], 'thorough': [{'runs': 20000}, {'runs': 5000, 'size': 'quick'}]},
-        'corrupt': _flip_poll,
+        'corrupt': _bulkhead_corrupt,
+    },
+    'ratelimiter': {
+        'spec_files': ['RateLimiter.tla', 'MC_RateLimiter.tla', 'Trace_RateLimiter.tla'],
+        'mc': {'quick': [{'cfg': 'MC_RateLimiter_q.cfg', 'module': 'MC_RateLimiter'}],
+               'thorough': [{'cfg': 'MC_RateLimiter.cfg', 'module': 'MC_RateLimiter'}]},
+        'gen': {'cfg': 'Gen_RateLimiter.cfg', 'module': 'MC_RateLimiter', 'num': {'quick': 400, 'thorough': 5000}, 'depth': 40},
+        'trace_module': 'Trace_RateLimiter', 'trace_cfg_tmpl': 'Trace_RateLimiter.cfg.tmpl',
+        'harness': 'ratelimiter',
+        'random': {'quick': [{'runs': 1500}], 'thorough': [{'runs': 20000}, {'runs': 5000, 'size': 'quick'}]},
+        'corrupt': _rl_corrupt,
     },
 }
 
 PROPS = {
     'C01': {'comp': 'bulkhead', 'profile': 'ProfC01', 'drift_profile': 'ProfAll'},
     'C07': {'comp': 'bulkhead', 'profile': 'ProfC07', 'drift_profile': 'ProfAll'},
+    'C02': {'comp': 'ratelimiter', 'profile': 'ProfC02', 'drift_profile': 'ProfAll'},
+    'C15': {'comp': 'ratelimiter', 'profile': 'ProfC15', 'drift_profile': 'ProfAll'},
 }
